@@ -114,6 +114,16 @@ def cases_for(tier):
                 forms = ["vars", "array1d", "neg", "const", "or", "paired"] if (var == 0 and len(edges) <= 4) else ["vars"]
                 for form in forms:
                     out.append({"form": form, "n": n, "edges": es})
+    # many more vertices than edges: every multigraph with a few edges on 6..9 vertices (isolated vertices in every position)
+    for n, maxe in ([(6, 3), (7, 2), (8, 2)] if tier == "quick" else [(6, 4), (7, 3), (8, 3), (9, 2)]):
+        for es in graphref.sparse_multigraphs(n, maxe, 2):
+            if es:
+                out.append({"form": "vars", "n": n, "edges": graphref.orient(es, 3 if len(es) % 2 else 0)})
+    # structured mid-sized graphs, all 2^m edge patterns (quick: m <= 9)
+    for name, n, es in graphref.zoo():
+        if len(es) > (9 if tier == "quick" else 12):
+            continue
+        out.append({"form": "vars", "n": n, "edges": es, "name": name})
     if tier != "quick":
         pairs = graphref.all_pairs(5)
         import itertools
